@@ -1422,6 +1422,22 @@ fn scripted_block(chain: bool) -> Vec<Op> {
             ca: ca.into(), add: vec![format!("{asn} => 65010")],
             remove: vec![],
         },
+        // a publisher that is not a CA of this instance: its staged changes
+        // can cancel out completely (publish + withdraw of the same object
+        // between two RRDP updates), which a CA's never do (the manifest
+        // always changes). The snapshot job runs while that is staged; the
+        // comparison point right after it is added by run_history.
+        Op::RawPublisher { publisher: "rawp".into() },
+        Op::RawPublish { publisher: "rawp".into(), name: "a.txt".into(), fill: 1 },
+        Op::Quiesce,
+        Op::RawWithdraw { publisher: "rawp".into(), name: "a.txt".into() },
+        Op::Quiesce,
+        Op::RawPublish { publisher: "rawp".into(), name: "b.txt".into(), fill: 2 },
+        Op::RawWithdraw { publisher: "rawp".into(), name: "b.txt".into() },
+        Op::Prefer { pat: "update_snapshots".into() },
+        Op::UpdateSnapshots,
+        Op::Pump { n: 1 },
+        Op::Prefer { pat: "".into() },
     ]
 }
 
@@ -1482,6 +1498,12 @@ fn run_history(
     let mut snap_points = BTreeSet::new();
     for _ in 0..rng.range(1, 2) {
         snap_points.insert(rng.range(first as u64, last as u64) as usize);
+    }
+    // right after the snapshot job ran with cancelled-out staged changes
+    if let Some(i) = script.iter().position(
+        |op| matches!(op, Op::Prefer { pat } if pat.is_empty())
+    ) {
+        check_points.insert(i);
     }
     if let Some((_, cfg, _)) = &replay {
         if let Some(s) = usize_set(&cfg["check_points"]) { check_points = s }
